@@ -2,16 +2,18 @@
 CLAIMED = {
  'C01': dict(
    technique='Lean 4 theorems (iteratedDeriv / coefficient recurrences) about a hand-written model + differential correspondence model<->code',
-   text=('Theorems for every D, every input series and every d<D: analytic layer (model coefficient = (1/d!) d^d/dt^d f(x(t)) at 0, Mathlib iteratedDeriv) for exp, expm1, log, log1p, sqrt, reciprocal, '
-         'real/negative-integer/natural powers, sin, cos, tan, sinh, cosh, tanh, arctan, arcsin, arccos, logit, expit, erf/erfi (for any antiderivative of c*exp(-+y^2)), absolute, sign, minimum, maximum; '
+   text=('Theorems for every D, every input series and every d<D: analytic layer (model coefficient = (1/d!) d^d/dt^d f(x(t)) at 0, Mathlib iteratedDeriv) for every function of the property: exp, expm1, log, log1p, sqrt, '
+         'reciprocal, real/negative-integer/natural powers, sin, cos, tan, sinh, cosh, tanh, arctan, arcsin, arccos, logit, expit, erf, erfi, dawsn (defined by integrals, and for any antiderivative/ODE solution), '
+         '_eval_slow_generic for every smooth f with derivative leaves f^(d)(x0) (gammaln, psi, polygamma, hyperu; Faa di Bruno in power form), the generic ODE solver, absolute, sign, minimum, maximum, clip away from kinks; '
          'the jet lemma (Taylor coefficients of f o X depend only on those of X) makes every kernel theorem hold for the jet of any smooth germ, so compositions of kernels are covered; '
-         'formal layer (defining convolution identity over any char-0 field, i.e. also complex coefficients) for exp, log, sqrt, sin/cos, reciprocal. Not proved (modelled, tied by the correspondence run '
-         'and checked by the Cauchy-integral oracle only): gammaln, psi, polygamma, hyperu (_eval_slow_generic), dawsn (generic ODE solver), botched_clip; complex-coefficient analytic statements (partial).')),
+         'formal layer (defining convolution identity over any char-0 field, i.e. also complex coefficients) for exp, log, sqrt, sin/cos, reciprocal. Partial: the analytic statements are over the reals; for complex coefficients the '
+         'formal layer, the correspondence run (Gaussian rationals) and the Cauchy-integral oracle decide.')),
  'C12': dict(
    technique='Lean 4 theorems (prefix stability of the build combinator) + truncation oracle on the implementation',
    text=('Theorem (F x).take D\' = F (x.take D\') for every L0 kernel that is a build/convolution recurrence (28 theorems, any field): arithmetic, exp, log, sqrt, powers, '
-         'trigonometric/hyperbolic pairs, arcsin/arccos/arctan, black/white family and its compositions. Fold-based kernels (Faa-di-Bruno family, dawsn) and matrix kernels are covered by the '
-         'implementation-level truncation oracle over 79 registered public operations, not by a theorem yet (partial).')),
+         'trigonometric/hyperbolic pairs, arcsin/arccos/arctan, black/white family and its compositions; the two fold-based kernels (_eval_slow_generic for every list of derivative leaves, _dawsn for every leaf) over the reals as a '
+         'corollary of the analytic layer (their output is the jet of a function that does not depend on D). Matrix kernels, in-place forms, comparisons/branches and the reverse sweep are covered by the '
+         'implementation-level truncation oracle over all registered public operations, not by a theorem (partial).')),
  'C02': dict(
    technique='Lean 4 theorems (Cauchy product in K[[X]], ring laws of R[t]/(t^D), dtype table by case analysis) + differential correspondence',
    text=('Theorems for all D and all series over any field: mulS is the Cauchy product, divS the unique solution of z*y=x, commutativity/associativity/distributivity, (x/y)*y=x; over R the '
